@@ -269,6 +269,29 @@ CHECKS = {
             'deterministic simulation: schedule/segmentation search with a '
             'sequential reference stream reader as oracle',
             'DESIGN.md 4 C19'),
+    'C20': ('c20_forwarding',
+            'Four-ended topology on the simulated network (origin app -> '
+            'local TCP/UNIX or SOCKS4/4a/5 listener of a real client -> SSH '
+            '-> real server -> destination app, and remote forwarding the '
+            'other way), 1-3 concurrent forwarded connections whose ends run '
+            'drawn programs of writes (also before the channel is confirmed), '
+            'half-close, close, abort and reading pauses; permitopen / '
+            'no-port-forwarding key options, an application refusing some '
+            'destinations or listen requests, optional loss of the SSH '
+            'connection at a drawn packet. Oracle: delivered == sent per '
+            'direction, EOF propagated with the other direction alive, close '
+            'of either end closes both, served iff the permission model '
+            'allows, no channel/socket left when both ends are gone, no '
+            'listener or relayed socket after the SSH connection ends, no '
+            'hang.',
+            COMMON_NOTE + ' The simulated TCP answers data sent to a fully '
+            'closed socket, and a close with unread data, with a reset (as '
+            'Linux does). X11/agent forwarding, TUN/TAP, permitlisten are '
+            'not exercised; slow-consumer propagation is exercised but only '
+            'checked through delivery/liveness.',
+            'deterministic simulation: four-party schedule search with '
+            'crash-point (connection cut) injection, stream-equality + '
+            'permission-model + residue oracles', 'DESIGN.md 4 C20'),
 }
 
 NOT_YET = {}
